@@ -30,6 +30,24 @@ func runC19(c *Ctx) {
 	// built without JSON defaults) default producer type never leads the offers
 	ruleOffersDefaultLast(c, "R19.2")
 	ruleOperationLookedUpByRelativePath(c, "R19.2")
+	// every security alternative the description declares — the anonymous one included — gets its group of
+	// authenticators on the route (a validated API serves what its description allows)
+	ruleRouteAuthenticatorsBuilt(c, "R19.2")
+	// the routing tables are built when the HANDLER is built (NewRouter), i.e. after the registrations Validate() judged:
+	// nothing builds them earlier (a context created before the last RegisterConsumer/Producer/Auth would serve with
+	// tables that lack them)
+	for _, fn := range p.LibFuncs("rt/middleware") {
+		for _, ci := range callsIn(fn, "rt/middleware.DefaultRouter") {
+			if ci.Parent() != fn {
+				continue
+			}
+			root := fn
+			for root.Parent() != nil {
+				root = root.Parent()
+			}
+			c.obD("R19.2", ci, "router-built-with-the-handler", fnName(root) == "rt/middleware.NewRouter", "DefaultRouter is called by NewRouter only (lazily, when the handler chain is assembled): the per-route consumer/producer/authenticator tables reflect every registration made before serving", "the default router is built in "+fnName(fn))
+		}
+	}
 	// validation, the handler table and the router all analyse the description AS IT IS when they are built
 	// (analysis.New(doc.Spec())): none of them reuses the analysis the document cached when it was loaded, which does not
 	// know operations added since — a validated operation would then not be routed
